@@ -540,7 +540,13 @@ def _read_request(
                 ) from exc
     finally:
         if release_shm is not None:
-            release_shm()
+            # The region is the client's to account for: one its allocation
+            # table does not list (nothing to free) must not turn a request
+            # that resolved into a dead connection.
+            try:
+                release_shm()
+            except ValueError:
+                wire_request_logger.debug("failed to release shared-memory request region", exc_info=True)
         if owned_shm is not None:
             with contextlib.suppress(BufferError):
                 owned_shm.close()
